@@ -27,12 +27,8 @@ NOT_COVERED = ['that encoder and decoder payload symbol sequences mirror each ot
 ASSUMPTIONS = _c05.ASSUMPTIONS
 TRUSTED = _c05.TRUSTED
 REQUIRED_THEOREMS = ['OpusProps.C02.' + t for t in ('genToc_roundtrip', 'lowBudget_valid', 'no_internal_error',
-                                                    'repack_output_parses', 'encode_wellformed_partial')]
-UNPROVED = ['encode_wellformed in full (the full statement is a comment block in OpusProps/C02.lean): proved are the return range, the '
-            'code-0 parse and repack_output_parses (every header the repacketiser contract emits parses back to the frame list); '
-            'missing is the bookkeeping that carries pkt.hdr/pkt.lens through the four return paths of encodeNative and the '
-            'duration equation count x samples_per_frame(ToC) = frame_size along the decision chain; both are covered by the tie '
-            '(exact header bytes and frame lengths) and the search (opus_packet_parse / get_nb_samples on every packet) only',
+                                                    'repack_output_parses', 'encode_wellformed')]
+UNPROVED = [
             'redundancy_mirror (P1)',
             'lowBudget_valid for the CBR-padded ToC-only packet is covered by encode_wellformed through the repacketiser '
             'contract; the statement proved by exhaustive kernel evaluation is about the unpadded packet']
@@ -169,8 +165,8 @@ def replay(ctx, obj):
 LEVEL_TEXT = ('partial: kernel-checked for the encoder skeleton (all oracle behaviours within the contracts, all settings, frame '
               'sizes and buffer sizes): gen_toc round-trips through the packet helpers for every legal (mode, duration, bandwidth, '
               'channels) at every rate; the low-budget ToC-only packet parses with the submitted duration and one byte is refused '
-              'exactly for 100 ms; every success return has 1 <= ret <= out_data_bytes (the parse of the emitted structure is proved for the code-0 '
-              'shape only: encode_wellformed_partial); no INTERNAL_ERROR site and no assertion of the skeleton is reachable. Lock-step of '
+              'exactly for 100 ms; every success return has 1 <= ret <= out_data_bytes and, for any frame contents, header ++ frames ++ padding '
+              'parses (C06 parser) to exactly those frames, count x samples_per_frame = frame_size, consuming ret bytes; no INTERNAL_ERROR site and no assertion of the skeleton is reachable. Lock-step of '
               'the payload (final range equality, sample counts at every decoder rate) is searched on the implementation only.')
 LEVEL_NOTE = _c05.LEVEL_NOTE + ' No RFC reference decoder is available offline.'
 TECHNIQUE = 'Lean 4 theorems over the encoder skeleton + differential replay + encode/decode lock-step search on the real library'
